@@ -19,10 +19,10 @@ LEVEL = 'model_checking'
 TECHNIQUE = ('explicit-state bfs of the option protocol against a reference model; stateless model checking of real threads '
              'under a controlled scheduler (sys.settrace schedule points at every pfst function call / line, iterative '
              'preemption bounding); exhaustive op-level interleavings of edit scripts on separate trees')
-LEVEL_TEXT = ('all option-protocol histories up to depth 3-4 over 6 options (deeper over 2) are executed on the real option store and compared with '
+LEVEL_TEXT = ('all option-protocol histories up to depth 3-4 over 7 options (deeper over 2) are executed on the real option store and compared with '
               'a stack-of-dicts model and with behavioural probes; all schedules of 2-3 real threads with at most 1 preemption at '
               'every pfst call (quick) / line (thorough) and 2 preemptions inside option/registry functions are executed; all '
-              '20 interleavings of two 3-edit scripts')
+              '20 interleavings of two 3-edit scripts; every ordered pair of 12 option-less calls in fresh interpreters')
 LEVEL_NOTE = ('schedule points at Python function-call / line granularity inside src/fst (switches between two bytecodes of one line '
               'are not modelled); every failing schedule is replayed a second time before it is reported; shared-state inventory '
               'is recomputed on every run')
@@ -30,7 +30,7 @@ RULE = ('states = distinct (option store, context stack) protocol states + disti
         'schedule points executed; traces = executions compared with the reference model / the solo run; non-trivial = distinct '
         'protocol states with a non-default store or schedules with >= 1 preemption')
 ASSUMPTIONS = ['each thread edits its own tree', 'PYTHONHASHSEED fixed, no clocks, no I/O']
-BOUNDS = {'quick': 'protocol depth 3 over the full alphabet (every value of 6 options incl. the defaults and values that compare equal across types, bad requests, calls) + depth 4 over two options; 3 two-thread scenarios: every schedule with <= 1 preemption at every '
+BOUNDS = {'quick': 'protocol depth 3 over the full alphabet (every value of 7 options incl. the defaults and values that compare equal across types, bad requests, calls) + depth 4 over two options; 3 two-thread scenarios: every schedule with <= 1 preemption at every '
                    'pfst function call + every schedule with <= 2 preemptions inside option-store/registry functions; 3-thread '
                    'scenario: all thread orders + <= 1 preemption inside those functions; all 20 op-level interleavings',
           'thorough': 'protocol depth 4 (full alphabet) and 6 (two options); line-level schedule points with <= 1 preemption for all 4 scenarios; 3-thread scenario with <= 1 '
